@@ -60,12 +60,14 @@ pub enum Opt {
     Dots,
     PredDots,
     Type,
+    /// `bound(.., T: M_l)`: the default marker written BEFORE the predicate
+    DotsPred,
 }
 impl Opt {
-    pub const ALL: [Opt; 6] = [Opt::Absent, Opt::Empty, Opt::Pred, Opt::Dots, Opt::PredDots, Opt::Type];
+    pub const ALL: [Opt; 7] = [Opt::Absent, Opt::Empty, Opt::Pred, Opt::Dots, Opt::PredDots, Opt::Type, Opt::DotsPred];
     pub const THREE: [Opt; 3] = [Opt::Absent, Opt::Pred, Opt::PredDots];
     fn continues(self) -> bool {
-        matches!(self, Opt::Absent | Opt::Dots | Opt::PredDots)
+        matches!(self, Opt::Absent | Opt::Dots | Opt::PredDots | Opt::DotsPred)
     }
     fn text(self, n: usize) -> Option<String> {
         Some(match self {
@@ -75,6 +77,7 @@ impl Opt {
             Opt::Dots => "bound(..)".into(),
             Opt::PredDots => format!("bound(T: M{n}, ..)"),
             Opt::Type => format!("bound(W{n}<T>)"),
+            Opt::DotsPred => format!("bound(.., T: M{n})"),
         })
     }
     fn short(self) -> &'static str {
@@ -85,6 +88,7 @@ impl Opt {
             Opt::Dots => "bound(..)",
             Opt::PredDots => "bound(P,..)",
             Opt::Type => "bound(Ty)",
+            Opt::DotsPred => "bound(..,P)",
         }
     }
 }
@@ -160,6 +164,8 @@ pub struct Case {
     pub opts: Vec<Opt>,
     /// for comparison configs: attribute carrying `key = ..` on the probed field (None = no key)
     pub key_on: Option<Tr>,
+    /// Default configs: the probed field carries an explicit value `#[default(F1::new())]`
+    pub dvalue: bool,
     pub entry: Entry,
     pub attr: String,
     pub item: String,
@@ -170,7 +176,7 @@ fn bound_arg(o: Opt, n: usize) -> Option<String> {
 }
 
 /// Render attribute + item text for a configuration and an option per slot.
-fn render(cfg: &Config, opts: &[Opt], key_on: Option<Tr>) -> (String, String) {
+fn render(cfg: &Config, opts: &[Opt], key_on: Option<Tr>, dvalue: bool) -> (String, String) {
     let at = |place: Place, kind: &Kind| -> Option<(usize, Opt)> { cfg.slots.iter().position(|s| s.place == place && &s.kind == kind).map(|i| (i, opts[i])) };
     // derive_ex argument list for a placement; `always` = list every derived trait
     let list = |place: Place, always: bool| -> Option<String> {
@@ -206,9 +212,11 @@ fn render(cfg: &Config, opts: &[Opt], key_on: Option<Tr>) -> (String, String) {
                 let key = if place == Place::Field && key_on.map(|k| k.attr() == h).unwrap_or(false) { Some("key = $.k()".to_string()) } else { None };
                 if h == "default" {
                     // on the default variant the marker itself is required
+                    let val = if dvalue && place == Place::Field { "F1::new()" } else { "_" };
                     match (&b, place) {
-                        (Some(b), _) => v.push(format!("#[default(_, {b})]")),
+                        (Some(b), _) => v.push(format!("#[default({val}, {b})]")),
                         (None, Place::Variant) => v.push("#[default]".into()),
+                        (None, Place::Field) if dvalue => v.push("#[default(F1::new())]".into()),
                         _ => {}
                     }
                 } else {
@@ -268,7 +276,7 @@ pub enum Exp {
     Field(usize),
 }
 
-pub fn ref_bounds(cfg: &Config, opts: &[Opt], key_on: Option<Tr>, t: &str) -> BTreeSet<Exp> {
+pub fn ref_bounds(cfg: &Config, opts: &[Opt], key_on: Option<Tr>, dvalue: bool, t: &str) -> BTreeSet<Exp> {
     let mut out = BTreeSet::new();
     out.insert(Exp::Decl);
     let tr = Tr::from_name(t);
@@ -303,7 +311,7 @@ pub fn ref_bounds(cfg: &Config, opts: &[Opt], key_on: Option<Tr>, t: &str) -> BT
                 break;
             }
             match opts[i] {
-                Opt::Pred | Opt::PredDots => {
+                Opt::Pred | Opt::PredDots | Opt::DotsPred => {
                     out.insert(Exp::Pred(i));
                 }
                 Opt::Type => {
@@ -330,6 +338,9 @@ pub fn ref_bounds(cfg: &Config, opts: &[Opt], key_on: Option<Tr>, t: &str) -> BT
         }
         _ => (None, true),
     };
+    // a field with an explicit default value is not constructed through `Default::default()`:
+    // its explicit levels still apply, its default field-type bound does not
+    let probed_used = probed_used && !(dvalue && t == "Default");
     if cfg.unit_variant {
         // variant U (slots, no fields); variant B, field B.0
         let _use_u = walk(use_type, &levels(Place::Variant, None), &mut out);
@@ -440,18 +451,18 @@ pub fn configs() -> Vec<Config> {
 }
 
 struct Plan {
-    /// max number of non-absent levels over the 6-option alphabet
+    /// max number of non-absent levels over the 7-option alphabet
     max_dev: usize,
     /// configs (by name) explored with the full product over {absent, bound(P), bound(P,..)}
     full3: Vec<&'static str>,
-    /// configs explored with the full 6-option product
+    /// configs explored with the full 7-option product
     full6: Vec<&'static str>,
 }
 
 fn gen(ch: &mut Ch, cfgs: &[Config], plan: &Plan) -> Option<Case> {
     let ci = ch.pick(cfgs.len());
     let cfg = &cfgs[ci];
-    // mode 0: deviation-bounded over 6 options; mode 1: full product over 3 options; mode 2: full 6
+    // mode 0: deviation-bounded over 7 options; mode 1: full product over 3 options; mode 2: full 7
     let mut modes = vec![0usize];
     if plan.full3.contains(&cfg.name.as_str()) {
         modes.push(1);
@@ -479,6 +490,9 @@ fn gen(ch: &mut Ch, cfgs: &[Config], plan: &Plan) -> Option<Case> {
             }
         }
     }
+    // Default configs with field levels: the probed field with / without an explicit value
+    let has_default_field = cfg.derived.iter().any(|d| d == "Default") && cfg.slots.iter().any(|s| s.place == Place::Field && s.kind == Kind::Helper("default".into()));
+    let dvalue = has_default_field && mode == 0 && ch.pick(2) == 1;
     let mut opts = Vec::with_capacity(cfg.slots.len());
     let mut dev = 0;
     if mode == 0 {
@@ -515,8 +529,8 @@ fn gen(ch: &mut Ch, cfgs: &[Config], plan: &Plan) -> Option<Case> {
     if mode == 2 && plan.full3.contains(&cfg.name.as_str()) && opts.iter().all(|o| Opt::THREE.contains(o)) {
         return None;
     }
-    let (attr, item) = render(cfg, &opts, key_on);
-    Some(Case { cfg: ci, vector: ch.vector(), opts, key_on, entry, attr, item })
+    let (attr, item) = render(cfg, &opts, key_on, dvalue);
+    Some(Case { cfg: ci, vector: ch.vector(), opts, key_on, dvalue, entry, attr, item })
 }
 
 #[derive(Debug)]
@@ -533,7 +547,7 @@ fn evaluate(cfg: &Config, c: &Case, templates: &BTreeMap<String, Vec<String>>) -
     };
     let mut per_trait = Vec::new();
     for (k, d) in cfg.derived.iter().enumerate() {
-        let exp = ref_bounds(cfg, &c.opts, c.key_on, d);
+        let exp = ref_bounds(cfg, &c.opts, c.key_on, c.dvalue, d);
         // I1: whether `#[partial_eq(bound(..))]` reaches Eq's where-clause is unspecified
         if d == "Eq" && cfg.slots.iter().enumerate().any(|(i, s)| s.kind == Kind::Helper("partial_eq".into()) && c.opts[i] != Opt::Absent) {
             per_trait.push(Ok(Vec::new()));
@@ -569,12 +583,15 @@ fn describe(cfg: &Config, c: &Case) -> String {
     if let Some(k) = c.key_on {
         v.push(format!("field:#[{}(key)]", k.attr()));
     }
+    if c.dvalue {
+        v.push("field:#[default(value)]".into());
+    }
     format!("[{}] {}", cfg.name, v.join(" "))
 }
 
 pub fn run(ctx: &Ctx, rep: &mut Report) {
     let thorough = ctx.tier.is_thorough();
-    rep.rule = "terminal state = (probe configuration [derived trait set x struct/enum], entry point, optional key placement, one bound option out of {absent, bound(), bound(T: M_l), bound(..), bound(T: M_l, ..), bound(W_l<T>)} per priority level incl. one slot per recognised comparison helper attribute at each placement); bounded by the number of non-absent levels, plus full products over {absent, bound(P), bound(P, ..)} for the small configurations; distinct by program text; non-trivial = at least one level non-absent".into();
+    rep.rule = "terminal state = (probe configuration [derived trait set x struct/enum], entry point, optional key placement, one bound option out of {absent, bound(), bound(T: M_l), bound(..), bound(T: M_l, ..), bound(W_l<T>), bound(.., T: M_l)} per priority level; Default configurations also with an explicit value on the probed field incl. one slot per recognised comparison helper attribute at each placement); bounded by the number of non-absent levels, plus full products over {absent, bound(P), bound(P, ..)} for the small configurations; distinct by program text; non-trivial = at least one level non-absent".into();
     rep.assumptions = vec![
         "reference ref_bounds of DESIGN.md 5/C04 (from doc/derive_ex.md 'Specify trait bound'); interpretations I1, I5 (sets of predicates)".into(),
         "the textual form of a default / Type bound is calibrated per trait on `struct C<T>(F1<T>)`; its semantic adequacy is C03's business".into(),
@@ -607,8 +624,9 @@ pub fn run(ctx: &Ctx, rep: &mut Report) {
         let opts: Vec<Opt> = cs["opts"].as_array().unwrap().iter().map(|x| Opt::ALL[x.as_u64().unwrap() as usize]).collect();
         let key_on = cs["key_on"].as_str().and_then(|k| Tr::ALL.iter().copied().find(|t| t.attr() == k));
         let entry = if cs["entry"] == "derive" { Entry::Derive } else { Entry::Attr };
-        let (attr, item) = render(&cfgs[ci], &opts, key_on);
-        let c = Case { cfg: ci, vector: vec![], opts, key_on, entry, attr, item };
+        let dvalue = cs["dvalue"].as_bool().unwrap_or(false);
+        let (attr, item) = render(&cfgs[ci], &opts, key_on, dvalue);
+        let c = Case { cfg: ci, vector: vec![], opts, key_on, dvalue, entry, attr, item };
         let a = format!("{:?}", evaluate(&cfgs[ci], &c, &templates));
         let b = format!("{:?}", evaluate(&cfgs[ci], &c, &templates));
         assert_eq!(a, b, "replay observations differ between two runs");
@@ -621,7 +639,7 @@ pub fn run(ctx: &Ctx, rep: &mut Report) {
     let mut process = |rep: &mut Report, cases: &Vec<Case>, distinct_where: &mut BTreeSet<String>, conform_inputs: &mut Vec<crate::conform::Input>| {
     let evals = par_map(cases, threads(), |_, c| evaluate(&cfgs[c.cfg], c, &templates));
     for c in cases.iter() {
-        if c.opts.iter().filter(|o| **o != Opt::Absent).count() <= 1 && c.key_on.is_none() {
+        if c.opts.iter().filter(|o| **o != Opt::Absent).count() <= 1 && c.key_on.is_none() && !c.dvalue {
             conform_inputs.push(crate::conform::Input { entry: c.entry, attr: c.attr.clone(), item: c.item.clone() });
         }
     }
@@ -646,6 +664,9 @@ pub fn run(ctx: &Ctx, rep: &mut Report) {
             if let Some(k) = c.key_on {
                 a.insert(format!("key_on={}", k.attr()));
             }
+            if c.dvalue {
+                a.insert("default_value_on_field".into());
+            }
             a
         };
         match e {
@@ -653,7 +674,7 @@ pub fn run(ctx: &Ctx, rep: &mut Report) {
                 symptom: "expansion-failed".into(),
                 atoms: mk_atoms(None),
                 what: format!("{}: {}", describe(cfg, c), first_line(m)),
-                detail: json!({"vector": c.vector, "config": cfg.name, "opts": c.opts.iter().map(|o| Opt::ALL.iter().position(|x| x == o).unwrap()).collect::<Vec<_>>(), "key_on": c.key_on.map(|k| k.attr()), "entry": c.entry.name(), "attr": c.attr, "item": c.item, "observed": m}),
+                detail: json!({"vector": c.vector, "config": cfg.name, "opts": c.opts.iter().map(|o| Opt::ALL.iter().position(|x| x == o).unwrap()).collect::<Vec<_>>(), "key_on": c.key_on.map(|k| k.attr()), "dvalue": c.dvalue, "entry": c.entry.name(), "attr": c.attr, "item": c.item, "observed": m}),
                 standalone: None,
             }),
             Ok(ev) => {
@@ -663,7 +684,7 @@ pub fn run(ctx: &Ctx, rep: &mut Report) {
                             symptom: "trait-not-generated".into(),
                             atoms: mk_atoms(Some(d)),
                             what: format!("{} trait {}: {}", describe(cfg, c), d, first_line(m)),
-                            detail: json!({"vector": c.vector, "config": cfg.name, "opts": c.opts.iter().map(|o| Opt::ALL.iter().position(|x| x == o).unwrap()).collect::<Vec<_>>(), "key_on": c.key_on.map(|k| k.attr()), "entry": c.entry.name(), "attr": c.attr, "item": c.item, "trait": d, "observed": m}),
+                            detail: json!({"vector": c.vector, "config": cfg.name, "opts": c.opts.iter().map(|o| Opt::ALL.iter().position(|x| x == o).unwrap()).collect::<Vec<_>>(), "key_on": c.key_on.map(|k| k.attr()), "dvalue": c.dvalue, "entry": c.entry.name(), "attr": c.attr, "item": c.item, "trait": d, "observed": m}),
                             standalone: None,
                         }),
                         Ok(v) => {
@@ -676,7 +697,7 @@ pub fn run(ctx: &Ctx, rep: &mut Report) {
                                         symptom: "where-clause-differs-from-priority-rule".into(),
                                         atoms: mk_atoms(Some(d)),
                                         what: format!("{} impl #{} of {}: missing {:?}, unexpected {:?}", describe(cfg, c), n, d, missing, extra),
-                                        detail: json!({"vector": c.vector, "config": cfg.name, "opts": c.opts.iter().map(|o| Opt::ALL.iter().position(|x| x == o).unwrap()).collect::<Vec<_>>(), "key_on": c.key_on.map(|k| k.attr()), "entry": c.entry.name(), "attr": c.attr, "item": c.item, "trait": d, "impl_index": n, "expected_where": exp, "observed_where": got}),
+                                        detail: json!({"vector": c.vector, "config": cfg.name, "opts": c.opts.iter().map(|o| Opt::ALL.iter().position(|x| x == o).unwrap()).collect::<Vec<_>>(), "key_on": c.key_on.map(|k| k.attr()), "dvalue": c.dvalue, "entry": c.entry.name(), "attr": c.attr, "item": c.item, "trait": d, "impl_index": n, "expected_where": exp, "observed_where": got}),
                                         standalone: None,
                                     });
                                 }
